@@ -364,7 +364,7 @@ Section Lib.
     end.
 
   (* handle_new_connection (after acceptor + process_auth, which C06 models); z = error given to the client *)
-  Definition handle_new (slot : nat) (w : world) : R :=
+  Definition handle_new (slot : nat) (resp_ok : bool) (w : world) : R :=
     chks w (
     let c := next w in
     let x := mkConn true INACTIVE 1 false false 0 0 false P0 0 in       (* qb_ipcs_connection_alloc: conn_ref + service conn_ref *)
@@ -373,10 +373,14 @@ Section Lib.
     chk c w2 (
     if negb (r =? 0) then
       (* send_response with the error; state is INACTIVE: drop the allocation reference, close the socket *)
-      bind (conn_unref c w2) (fun w3 _ => Ok (set_slots (updf (slots w3) slot None) w3) r)
+      bind (conn_unref c w2) (fun w3 _ => Ok (set_slots (updf (slots w3) slot None) w3) (if resp_ok then r else -999))
     else chks w2 (                                                     (* s->funcs.connect, list_add *)
       let w3 := put c (w_st ACTIVE (w_reg true (conns w2 c))) w2 in
       let w4 := set_list (c :: s_list w3) w3 in
+      if negb resp_ok then
+        (* the response could not be sent (the client went away): state is ACTIVE, qb_ipcs_disconnect(c) *)
+        bind (disconnect c w4) (fun w5 _ => Ok (set_slots (updf (slots w5) slot None) w5) (-999))
+      else
       bind (conn_ref c w4) (fun w5 _ =>
       bind (cb KCreated c w5) (fun w6 _ =>
       chk c w6 (
@@ -413,7 +417,7 @@ Fixpoint invoke (shm fixed : bool) (n : nat) (k : kind) (c : nat) (w : world) : 
 (* ---- top-level operations of a history *)
 Inductive op :=
 | OBeh (k : kind) (b : behav)       (* extend the behaviour table *)
-| OConn (slot : nat)
+| OConn (slot : nat) (resp_ok : bool)   (* resp_ok = false: the client stops reading before the server answers *)
 | OReq (slot : nat) (accepted : bool)   (* accepted: the kernel took the datagram / notification byte (oracle) *)
 | OHup (slot : nat) (empty : bool)  (* client disconnects or dies; empty: the kernel purged / holds no queued request (oracle) *)
 | OTurn (c : nat) (empty : bool)    (* empty: the kernel holds no queued request for c (oracle, socket transport) *)
@@ -443,9 +447,9 @@ Section Top.
                                           | KAccept, KAccept | KCreated, KCreated | KMsg, KMsg | KClosed, KClosed
                                           | KDestroyed, KDestroyed => behs w k' ++ [b]
                                           | _, _ => behs w k' end) w) 0
-    | OConn slot =>
+    | OConn slot resp_ok =>
       if Nat.ltb slot maxslots && negb (destroy_called w) && (match slots w slot with None => true | Some _ => false end)
-      then handle_new cb slot w else Ok w (-1000)
+      then handle_new fixed cb slot resp_ok w else Ok w (-1000)
     | OReq slot accepted =>
       match (if Nat.ltb slot maxslots then slots w slot else None) with
       | None => Ok w (-1000)
